@@ -1853,6 +1853,9 @@ class Scene:
         # Specify the aircraft
         aircraft_names = self._get_aircraft(**kwargs)
 
+        # The aircraft is passed on explicitly below
+        kwargs = {key : value for key, value in kwargs.items() if key != "aircraft"}
+
         for aircraft_name in aircraft_names:
             derivs[aircraft_name] = {}
             # Determine stability derivatives
